@@ -2,6 +2,7 @@
 use crate::report::{Meta, Out, Violation};
 use serde_json::Value;
 
+pub mod c01;
 pub mod c08;
 
 pub struct Prop {
@@ -29,6 +30,7 @@ pub fn all_workers(_tier: &str) -> usize {
 
 pub fn get(id: &str) -> Option<Prop> {
     match id {
+        "C01" => Some(c01::prop()),
         "C08" => Some(c08::prop()),
         _ => None,
     }
